@@ -25,6 +25,7 @@ func runC02(c *core.Ctx) {
 	h.followerCommitSites("C02.4b follower-commit-sites")
 	c.Clause("C02.5 truncation only at a proven conflict, above the snapshot, by a follower; log reset only on snapshot installation")
 	h.truncationOnlyAtConflict("C02.5 truncation")
+	h.entrySkipAndKeep("C02.5b skip-and-keep")
 	c.Clause("C02.6 a new configuration is appended only when the previous one is committed and an own-term entry is committed")
 	h.configChangeGates("C02.6 config-gates")
 }
